@@ -172,3 +172,114 @@ def small_values(fam, rng):
         if not any(eq(v, o) for o in out):
             out.append(v)
     return out[:3] or vs[:1]
+
+
+# ---------------------------------------------------------------------------
+# shard entry point shared by C01 / C02 / C03 / C09
+
+def specs_for(pid, tier, seed, fams_quick, fams_thorough, u_quick=6,
+              u_thorough=7, kinds=families.TREE_KINDS,
+              impls=('c', 'py')):
+    """Explorer shards for a property: quick = universe of `u_quick` keys at
+    node sizes (2,2) / (2,3) / (3,2) (closed: every reachable state
+    expanded), thorough = `u_thorough` keys and all families."""
+    q = tier == 'quick'
+    out = []
+    fams = fams_quick if q else fams_thorough
+    sizes_list = [(2, 2), (2, 3), (3, 2)] if q else \
+        [(2, 2), (2, 3), (3, 2), (3, 3), (2, 4)]
+    n = 0
+    for fam in fams:
+        for kind in kinds:
+            for impl in impls:
+                # quick: one node-size setting per (family, kind, impl),
+                # rotating with the seed; thorough: all of them
+                for sz in ([sizes_list[(n + seed) % len(sizes_list)]] if q
+                           else sizes_list):
+                    u = u_quick if q else (
+                        u_thorough if sz in ((2, 2), (3, 2), (2, 3))
+                        else u_thorough + 1)
+                    out.append(dict(
+                        label='explore-%s-%s-%s-%dx%d' % (fam, kind, impl,
+                                                          sz[0], sz[1]),
+                        explore=True, family=fam, kind=kind, impl=impl,
+                        sizes=list(sz), universe=u,
+                        max_states=4000 if q else 60000, seed=seed,
+                        tier=tier, variant='mon',
+                        timeout=1200 if q else 7200))
+                n += 1
+    return out
+
+
+def run_shard(pid, spec, rec):
+    from .runner import rng_for
+    fam = families.get(spec['family'])
+    kind, impl = spec['kind'], spec['impl']
+    sizes = tuple(spec['sizes'])
+    rng = rng_for(spec['seed'], pid, spec['label'])
+    uni = small_universe(fam, spec['universe'], rng)
+    vals = small_values(fam, rng)
+    is_mapping = kind in families.MAPPING_KINDS
+    kw = dict(max_states=spec['max_states'], label=pid)
+    if pid == 'C01':
+        r = explore(fam, kind, impl, sizes, uni, vals, rec, rng, judge=True,
+                    structure=False, **kw)
+    elif pid == 'C03':
+        r = explore(fam, kind, impl, sizes, uni, vals, rec, rng,
+                    judge='contents', structure=True, **kw)
+    elif pid == 'C02':
+        from .props import c02
+
+        def on_state(ls, w, path):
+            ls.g.universe = list(uni)
+            c02.check_container(fam, kind, impl, ls, rng, rec,
+                                spec['tier'] == 'quick')
+            rec.ev(impl + ':explore:state-queried')
+        r = explore(fam, kind, impl, sizes, uni, vals, rec, rng,
+                    judge='contents', structure=False, on_state=on_state,
+                    **kw)
+    elif pid == 'C09':
+        import pickle
+        from .props import c06
+
+        def on_pair(ls, ls2, path):
+            rec.ev('explore:pairs')
+            k1, w1 = state_key(ls.c, is_mapping, True)
+            k2, w2 = state_key(ls2.c, is_mapping, True)
+            d = dict(family=fam.name, kind=kind, sizes=sizes,
+                     path=[brief_(x) for x in path[-40:]],
+                     path_len=len(path))
+            if k1 != k2:
+                rec.violation('explore-shape-differs', c_shape=k1[0],
+                              py_shape=k2[0], c_leaves=k1[1][:300],
+                              py_leaves=k2[1][:300], c_seps=k1[2][:200],
+                              py_seps=k2[2][:200], **d)
+                return False
+            if not eq(contents(ls.c, is_mapping),
+                      contents(ls2.c, is_mapping)):
+                rec.violation('explore-contents-differ', **d)
+                return False
+            a, b = pickle.dumps(ls.c, 3), pickle.dumps(ls2.c, 3)
+            if a != b:
+                tag = None
+                if c06.dumps_nomemo(ls.c, 3) == c06.dumps_nomemo(ls2.c, 3):
+                    tag = 'F13'
+                rec.violation('explore-pickles-differ', memo_only=bool(tag),
+                              **dict(d, **({'finding': tag} if tag else {})))
+                if not tag:
+                    return False
+            return True
+        r = explore(fam, kind, 'c', sizes, uni, vals, rec, rng,
+                    judge='contents', structure=False, twin_impl='py',
+                    on_pair=on_pair, **kw)
+    else:
+        raise ValueError(pid)
+    rec.sample(dict(explore=spec['label'], universe=[brief_(k) for k in uni],
+                    **r), limit=4)
+    if not r['closed']:
+        rec.ev('explore:frontier-not-exhausted')
+
+
+def brief_(x):
+    from .harness import brief
+    return brief(x, 60)
